@@ -36,6 +36,43 @@ def sequences(tier, seed):
     return n, fails
 
 
+def producer_partition(tier, seed):
+    """'bit for bit the value the Java client computes': the Java client's partition is hash % n itself; aiokafka indexes
+    the partition list the producer hands to the partitioner, which must therefore be [0, 1, ..., n-1] however the
+    broker ordered the partitions in its metadata response. The real AIOKafkaProducer._partition over a real
+    ClusterMetadata filled from responses that list the partitions in shuffled order, some without a leader."""
+    from aiokafka.cluster import ClusterMetadata
+    from aiokafka.partitioner import DefaultPartitioner
+    from aiokafka.producer.producer import AIOKafkaProducer
+    from aiokafka.protocol.metadata import MetadataResponse_v1
+    rnd = random.Random(seed)
+    fails, cases = [], 0
+    keys = [bytes(k) for r in range(0, 3) for k in itertools.product((0, 0x7f, 0x80, 0xff), repeat=r)]
+    keys += [bytes(rnd.randrange(256) for _ in range(rnd.choice([3, 5, 8, 33]))) for _ in range(40 if tier == "quick" else 400)]
+    for n in (1, 2, 3, 5, 6, 7, 12, 100, 257, 1000):
+        for trial in range(2 if tier == "quick" else 6):
+            ids = list(range(n))
+            rnd.shuffle(ids)
+            parts = [(0, p, (-1 if rnd.random() < 0.2 else 1), [1], [1]) for p in ids]
+            cluster = ClusterMetadata()
+            cluster.update_metadata(MetadataResponse_v1([(1, "h", 9092, None)], 1, [(0, "t", False, parts)]))
+
+            class P:
+                pass
+            prod = P()
+            prod._metadata = cluster
+            prod._partitioner = DefaultPartitioner()
+            for key in keys:
+                cases += 1
+                got = AIOKafkaProducer._partition(prod, "t", None, key, b"v", key, b"v")
+                want = java_partition(key, n)
+                if got != want:
+                    fails.append({"key": key.hex(), "partitions": n, "listed_in_metadata_as": ids[:12], "got": got, "java": want})
+                    if len(fails) >= 10:
+                        return cases, fails
+    return cases, fails
+
+
 def main():
     ap = argparse.ArgumentParser()
     ap.add_argument("--tier", default="quick")
@@ -47,6 +84,23 @@ def main():
                    "each under 10 partition layouts (1..100 partitions, non-contiguous ids) in random order with random availability; seed %d"
                    % (200 if a.tier == "quick" else 5000, a.seed),
           "failures": fails, "replay": {"script": REPLAY % a.seed}})
+
+
+    n, fails = producer_partition(a.tier, a.seed)
+    emit({"name": "producer-partition-for-shuffled-metadata", "exhaustive": False, "cases": n, "distinct_nontrivial": n,
+          "bound": "the real AIOKafkaProducer._partition over a real ClusterMetadata: 1..1000 partitions listed by the broker in "
+                   "shuffled order, a fifth of them without a leader, keys of length 0..2 over {00,7f,80,ff} plus seeded random "
+                   "keys; compared with the Java client's hash %% n; seed %d" % a.seed,
+          "failures": fails, "replay": {"script": REPLAY_PRODUCER % a.seed}})
+
+
+REPLAY_PRODUCER = '''
+import sys
+sys.path.insert(0, "/verif")
+from bounded import C17
+n, fails = C17.producer_partition("quick", %d)
+VIOLATED = bool(fails); DETAIL = "%%d of %%d keyed sends differ from the Java client's partition; first: %%r" %% (len(fails), n, fails[:1])
+'''
 
 
 REPLAY = '''
